@@ -31,9 +31,15 @@ func cpInstances() []*verifx.FInst {
 		{ID: "a2", Node: "n2", NodeAddr: "10.0.2.1", ServiceID: "web", ServiceName: "svc-a", Addr: "10.0.2.7", Port: 8001,
 			GoodTags: []string{"urlprefix-/a"}, BadTags: []string{"urlprefix-/a", `a"quote`}},
 		{ID: "b1", Node: "n1", NodeAddr: "10.0.1.1", ServiceID: "api", ServiceName: "svc-b", Addr: "10.0.1.1", Port: 8002,
-			GoodTags: []string{"urlprefix-b.com/ proto=https", "urlprefix-/b2 strip=/b2", "urlprefix-:7000 proto=tcp", "urlprefix-/b3", "urlprefix-/A"}, BadTags: []string{"urlprefix-/b2 weight=1e999x"}},
+			GoodTags: []string{"urlprefix-b.com/ proto=https", "urlprefix-/b2 strip=/b2", "urlprefix-:7000 proto=tcp", "urlprefix-/b3 register=b3alias", "urlprefix-/A"}, BadTags: []string{"urlprefix-/b2 weight=1e999x"}},
 	}
-	if os.Getenv("VERIF_NAMING") == "dotted" {
+	naming := os.Getenv("VERIF_NAMING")
+	if strings.Contains(naming, "split") {
+		// three service names instead of two (a2 registers under a name of its own): with
+		// registry.consul.serviceMonitors = 2 or 3 the services do not divide evenly among the monitors
+		insts[1].ServiceName = "svc-c"
+	}
+	if strings.Contains(naming, "dotted") {
 		// node names and service ids with dots (FQDN node names are common): "n1" + "x.web" and
 		// "n1.x" + "web" must stay two different instances
 		insts[0].ServiceID = "x.web"
@@ -131,7 +137,21 @@ var (
 func cpStart(t *testing.T, status []string, checksRequired string) *cpRig {
 	cpOnce.Do(func() {
 		tr := &verifx.Trace{}
-		f := verifx.NewFakeConsul(cpInstances(), cpKV, tr)
+		kv := map[string]string{}
+		for k, v := range cpKV {
+			kv[k] = v
+		}
+		naming := os.Getenv("VERIF_NAMING")
+		if strings.Contains(naming, "split") {
+			// the override texts name the services: keep their meaning (both /a instances)
+			kv["delA"] = "route del svc-a\nroute del svc-c"
+			kv["weightA"] = "route weight svc-a /a weight 0.25\nroute weight svc-c /a weight 0.25"
+		}
+		monitors := 1
+		if i := strings.Index(naming, "mon"); i >= 0 && i+3 < len(naming) {
+			monitors = int(naming[i+3] - '0')
+		}
+		f := verifx.NewFakeConsul(cpInstances(), kv, tr)
 		if bf := os.Getenv("VERIF_BADTAGS"); bf != "" {
 			var lists [][]string
 			b, err := os.ReadFile(bf)
@@ -152,7 +172,7 @@ func cpStart(t *testing.T, status []string, checksRequired string) *cpRig {
 		cfg := &config.Config{}
 		cfg.Registry.Backend = "consul"
 		cfg.Registry.Consul = config.Consul{Addr: f.Addr(), Scheme: "http", KVPath: "/fabio/config", TagPrefix: "urlprefix-",
-			Register: false, ServiceStatus: status, ChecksRequired: checksRequired, ServiceMonitors: 1,
+			Register: false, ServiceStatus: status, ChecksRequired: checksRequired, ServiceMonitors: monitors,
 			NoRouteHTMLPath: "/fabio/noroute.html"}
 		cfg.Log.RoutesFormat = "delta"
 		be, err := consul.NewBackend(&cfg.Registry.Consul)
